@@ -22,7 +22,7 @@ TIERS = {"quick": dict(shards=8, examples=1500, alt_ppqn=[480], alt_shards=2),
 
 @st.composite
 def _case(draw, size=1):
-    pitches = draw(st.sampled_from([(60, 61), (60, 61, 62), (60,), (21, 108), (21, 108, 60), (0, 127), (20, 21, 108, 109)]))
+    pitches = draw(gens.pitch_pool([(60, 61), (60, 61, 62), (60,)]))
     notes = draw(gens.wellformed_notes(channels=(0, 1), pitches=pitches, max_notes=8 * size, max_len=70, max_gap=30))
     end_n = max([n[3] for n in notes] + [0])
     ticks_pool = sorted({0, end_n} | {n[2] for n in notes} | {n[3] for n in notes})
